@@ -34,6 +34,9 @@ const ORDER_TARGETS: &[(u32, &str, &str)] = &[
     (23, "crates/ripd/src/continuities.rs", "ContinuityStore::create_continuity"),
     (24, "crates/ripd/src/continuities.rs", "ContinuityStore::ensure_default"),
     (30, "crates/rip-log/src/lib.rs", "EventLog::append"),
+    (40, "crates/ripd/src/session.rs", "run_session"),
+    (41, "crates/ripd/src/session.rs", "run_openresponses_agent_loop"),
+    (42, "crates/ripd/src/tasks/mod.rs", "run_task"),
 ];
 
 const CONST_TARGETS: &[(&str, &str)] = &[
@@ -59,6 +62,10 @@ enum Eff {
     Snapshot,
     SeqLoad,
     CreateThread,
+    RunTool,
+    EmitBatch,
+    SideEffects,
+    RunProcess,
     FsWrite,
     FsFlush,
 }
@@ -70,6 +77,7 @@ fn lock_id(name: &str) -> u32 {
         "next_seq" => 3,
         "index" => 4,
         "file" | "writer" | "inner" => 5,
+        "workspace_lock" => 6,
         _ => 9,
     }
 }
@@ -87,6 +95,10 @@ fn eff_lean(e: &Eff) -> String {
         Eff::Snapshot => ".snapshot".into(),
         Eff::SeqLoad => ".seqLoad".into(),
         Eff::CreateThread => ".createThread".into(),
+        Eff::RunTool => ".runTool".into(),
+        Eff::EmitBatch => ".emitBatch".into(),
+        Eff::SideEffects => ".sideEffects".into(),
+        Eff::RunProcess => ".runProcess".into(),
         Eff::FsWrite => ".fsWrite".into(),
         Eff::FsFlush => ".fsFlush".into(),
     }
@@ -135,6 +147,10 @@ impl<'ast> Visit<'ast> for Collect {
             "events_snapshot" | "replay_events" => self.out.push(Eff::Snapshot),
             "load_next_seq_for" => self.out.push(Eff::SeqLoad),
             "create_continuity" => self.out.push(Eff::CreateThread),
+            "acquire" if recv == "workspace_lock" => self.out.push(Eff::Lock(6)),
+            "run" | "create_checkpoint" | "rewind_checkpoint" if recv == "tool_runner" => self.out.push(Eff::RunTool),
+            "append_tool_side_effects" => self.out.push(Eff::SideEffects),
+            "emit_all" => self.out.push(Eff::EmitBatch),
             "write_all" | "write" if recv == "file" || recv == "writer" || recv == "guard" => self.out.push(Eff::FsWrite),
             "flush" => self.out.push(Eff::FsFlush),
             _ => {}
@@ -151,6 +167,12 @@ impl<'ast> Visit<'ast> for Collect {
                     let g = last_ident(a);
                     self.out.push(Eff::Unlock(lock_id_of_guard(&g)));
                 }
+            }
+            if name == "emit_events" {
+                self.out.push(Eff::EmitBatch);
+            }
+            if name == "run_pipes_task" || name == "run_pty_task" {
+                self.out.push(Eff::RunProcess);
             }
             if name == "emit_event" {
                 // batch emitter delegates per event: publish/record order is that of emit_event
@@ -171,6 +193,7 @@ fn lock_id_of_guard(guard: &str) -> u32 {
         "seq" => 2,
         "next_seq" => 3,
         "index" => 4,
+        "_guard" | "_workspace_guard" => 6,
         _ => 9,
     }
 }
@@ -298,6 +321,7 @@ fn top_level_lock(e: &syn::Expr) -> Option<u32> {
             let name = m.method.to_string();
             match name.as_str() {
                 "lock" => Some(lock_id(&last_ident(&m.receiver))),
+                "acquire" if last_ident(&m.receiver) == "workspace_lock" => Some(6),
                 "expect" | "unwrap" | "map_err" | "unwrap_or_else" => top_level_lock(&m.receiver),
                 _ => None,
             }
@@ -411,6 +435,33 @@ impl<'ast> Visit<'ast> for CallGraph {
             return;
         }
         syn::visit::visit_item_mod(self, m);
+    }
+}
+
+fn fnv64(b: &[u8]) -> u64 {
+    let mut h: u64 = 0xcbf29ce484222325;
+    for x in b {
+        h ^= *x as u64;
+        h = h.wrapping_mul(0x100000001b3);
+    }
+    h
+}
+
+struct RegCollect {
+    names: Vec<String>,
+}
+
+impl<'ast> Visit<'ast> for RegCollect {
+    fn visit_expr_method_call(&mut self, m: &'ast syn::ExprMethodCall) {
+        let name = m.method.to_string();
+        if name == "register" || name == "register_alias" {
+            if let Some(syn::Expr::Lit(l)) = m.args.first() {
+                if let syn::Lit::Str(s) = &l.lit {
+                    self.names.push(s.value());
+                }
+            }
+        }
+        syn::visit::visit_expr_method_call(self, m);
     }
 }
 
@@ -648,6 +699,60 @@ fn main() {
         }
     }
 
+    // ---- lock table: which tools are exempt from the workspace lock, which tools are registered
+    let mut exempt: Vec<String> = Vec::new();
+    let mut registered: Vec<String> = Vec::new();
+    match std::fs::read_to_string(repo.join("crates/ripd/src/workspace_lock.rs")) {
+        Err(e) => errors.push(format!("workspace_lock.rs: {e}")),
+        Ok(text) => match syn::parse_file(&text) {
+            Err(e) => errors.push(format!("workspace_lock.rs: {e}")),
+            Ok(f) => {
+                let mut found = false;
+                for item in &f.items {
+                    if let syn::Item::Fn(func) = item {
+                        if func.sig.ident == "requires_workspace_lock" {
+                            found = true;
+                            let body = func.block.to_token_stream().to_string();
+                            if !body.replace(' ', "").starts_with("{!matches!(tool_name,") {
+                                errors.push("requires_workspace_lock: shape not recognised (expected `!matches!(tool_name, \"a\" | …)`)".into());
+                            }
+                            let mut rest = body.as_str();
+                            while let Some(p) = rest.find('"') {
+                                let r = &rest[p + 1..];
+                                let Some(q) = r.find('"') else { break };
+                                exempt.push(r[..q].to_string());
+                                rest = &r[q + 1..];
+                            }
+                        }
+                    }
+                }
+                if !found {
+                    errors.push("workspace_lock.rs: requires_workspace_lock not found".into());
+                }
+            }
+        },
+    }
+    match std::fs::read_to_string(repo.join("crates/rip-tools/src/builtins/mod.rs")) {
+        Err(e) => errors.push(format!("builtins/mod.rs: {e}")),
+        Ok(text) => match syn::parse_file(&text) {
+            Err(e) => errors.push(format!("builtins/mod.rs: {e}")),
+            Ok(f) => {
+                let mut rc = RegCollect { names: Vec::new() };
+                for item in &f.items {
+                    if let syn::Item::Fn(func) = item {
+                        if func.sig.ident == "register_builtin_tools" {
+                            rc.visit_block(&func.block);
+                        }
+                    }
+                }
+                registered = rc.names;
+                if registered.is_empty() {
+                    errors.push("register_builtin_tools: no registry.register(\"…\") call found".into());
+                }
+            }
+        },
+    }
+
     // ---- how the truth file is opened and written (impl EventLog)
     let mut log_fx = LogFx::default();
     match load("crates/rip-log/src/lib.rs", &mut parsed) {
@@ -670,7 +775,7 @@ fn main() {
     // ---- emit Lean
     let mut lean = String::new();
     lean.push_str("/- GENERATED by ripx from /repo's current source. Do not edit. -/\nnamespace Rip.Gen\n\n");
-    lean.push_str("inductive Eff\n  | publish | record | lock (n : Nat) | unlock (n : Nat) | logAppend | cacheAppend | bump\n  | subscribe | snapshot | seqLoad | createThread | fsWrite | fsFlush\n  deriving Repr, DecidableEq\n\n");
+    lean.push_str("inductive Eff\n  | publish | record | lock (n : Nat) | unlock (n : Nat) | logAppend | cacheAppend | bump\n  | subscribe | snapshot | seqLoad | createThread | runTool | emitBatch | sideEffects | runProcess | fsWrite | fsFlush\n  deriving Repr, DecidableEq\n\n");
     lean.push_str("/-- lock ids: 1 = recorded-frames buffer, 2 = task seq counter, 3 = continuity next_seq map, 4 = index, 5 = log file, 9 = other -/\n");
     lean.push_str("def effectOrders : List (Nat × List Eff) := [\n");
     for (k, (id, path, effs)) in orders.iter().enumerate() {
@@ -716,6 +821,28 @@ fn main() {
     lean.push_str(&format!("/-- cache-layer files that mention the truth log (must be none) -/\ndef cacheFilesMentioningLog : Nat := {}\n\n", cache_mentions_log.len()));
     lean.push_str("end Rip.Gen.CallGraph\n");
     write_if_changed(&out.join("CallGraph.lean"), &lean);
+
+    // lock table
+    let tool_id = |n: &str| -> usize {
+        match n {
+            "read" => 1,
+            "ls" => 2,
+            "grep" => 3,
+            "artifact_fetch" => 4,
+            "write" => 5,
+            "apply_patch" => 6,
+            "bash" => 7,
+            "shell" => 8,
+            other => 100 + (fnv64(other.as_bytes()) % 100_000) as usize,
+        }
+    };
+    let mut lean = String::new();
+    lean.push_str("/- GENERATED by ripx from ripd/src/workspace_lock.rs and rip-tools/src/builtins/mod.rs. Do not edit. -/\nnamespace Rip.Gen.LockTable\n\n");
+    lean.push_str("/-- tool ids: 1 read, 2 ls, 3 grep, 4 artifact_fetch, 5 write, 6 apply_patch, 7 bash, 8 shell; any other tool name gets an id ≥ 100 -/\n");
+    lean.push_str(&format!("def exemptFromLock : List Nat := [{}] -- {}\n\n", exempt.iter().map(|n| tool_id(n).to_string()).collect::<Vec<_>>().join(", "), exempt.join(", ")));
+    lean.push_str(&format!("def registered : List Nat := [{}] -- {}\n\n", registered.iter().map(|n| tool_id(n).to_string()).collect::<Vec<_>>().join(", "), registered.join(", ")));
+    lean.push_str("end Rip.Gen.LockTable\n");
+    write_if_changed(&out.join("LockTable.lean"), &lean);
 
     // log effects
     let mut lean = String::new();
